@@ -1,9 +1,87 @@
-"""Program-level part of C07 (filled in with the program families)."""
+"""Program-level part of C07: the verdict of the real compiler (accepted / class of error) on every
+member of the PosShape and FnPos families equals the verdict of Kinds.tla (tag(), constrain(), a
+reference unifier, type_check and cycles_check on the abstract syntax) - i.e. it coincides with
+solvability of the kind constraints - and does not change under permutations of declarations and
+consistent renamings of identifiers."""
+import json
+import random
+
+import common
+import progs
+from common import run_tlc, run_oalv_parallel
+
+
+def verdict(o):
+    r = progs.real_outcome(o)
+    if r["k"] == "REJECTED":
+        return "REJECTED:" + str(r.get("cls"))
+    if r["k"] in ("OK", "ERROR", "CRASH"):
+        return "ACCEPTED"          # evaluation is not part of the inference verdict
+    return r["k"]
 
 
 def run(chk, tier):
-    return
+    rng = random.Random(common.seed() + 7)
+    cfg = "Kinds_quick.cfg" if tier == "quick" else "Kinds_thorough.cfg"
+    r = run_tlc("KindsMC", cfg, workers=8, timeout=1800, java_opts=["-Xss512m"])
+    chk.add_tlc(r)
+    if not r.ok:
+        raise common.ToolError("KindsMC failed: %s" % (r.violation or "")[:800])
+    members = r.cases
+    cases = []
+    meta = []
+    nvar = 2 if tier == "quick" else 5
+    for i, c in enumerate(members):
+        hc, _ = progs.harness_case(c["prog"], style=(i + common.seed()) % 4)
+        cases.append(hc)
+        meta.append((i, "original"))
+        variants = progs.permutations_of(c["prog"], limit=nvar + 1, rng=rng)
+        for q in variants[:nvar]:
+            cases.append(progs.harness_case(q, style=0)[0])
+            meta.append((i, "permuted"))
+        cases.append(progs.harness_case(progs.rename_consistently(c["prog"]), style=0)[0])
+        meta.append((i, "renamed"))
+    obs = run_oalv_parallel("compile", [dict(c, want={}) for c in cases], jobs=8)
+    base = {}
+    nontrivial = 0
+    for (i, kind), hc, o in zip(meta, cases, obs):
+        if o.get("outcome") == "skipped":
+            continue
+        c = members[i]
+        v = verdict(o)
+        text = hc["files"][progs.B + "m1.oal"]
+        payload = {"files": hc["files"], "family": [c["pos"], c["shape"], c["ind"]], "variant": kind,
+                   "spec": {"ok": c["ok"], "cls": c["cls"], "phase": c["phase"]}, "real": v}
+        if v in ("ABORT", "HANG"):
+            chk.violation("C07|program|%s" % v.lower(), "compilation does not terminate normally on %r" % text[:140], payload)
+            continue
+        if kind == "original":
+            base[i] = v
+            want = "ACCEPTED" if c["ok"] else "REJECTED:" + c["cls"]
+            if v != want:
+                chk.violation("C07|program|verdict|spec=%s real=%s" % (want, v),
+                              "the real verdict %s differs from solvability of the kind constraints (%s, phase %s) on %r" % (v, want, c["phase"], text[:160]), payload)
+            else:
+                chk.cov["traces_validated_against_impl"] += 1
+            if not c["ok"] or c["ind"] != "direct":
+                nontrivial += 1
+        elif i in base and v != base[i]:
+            chk.violation("C07|program|%s-dependent" % ("order" if kind == "permuted" else "name"),
+                          "the verdict changes from %s to %s when declarations are %s: %r" % (base[i], v, kind, text[:160]), payload)
+    chk.cov["evaluations"] += len(cases)
+    chk.cov["distinct_nontrivial"] += nontrivial
+    chk.notes["programs"] = {"members": len(members), "compiled_variants": len(cases)}
+    if members:
+        k = len(members) // 3
+        chk.sample({"program_family": [members[k]["pos"], members[k]["shape"], members[k]["ind"]], "spec_verdict": members[k]["ok"], "spec_phase": members[k]["phase"]})
 
 
 def replay(case):
+    common.build_harness()
+    o = common.run_oalv("compile", [{"main": progs.B + "m1.oal", "files": case["files"], "want": {}}])[0]
+    for k, v in case["files"].items():
+        print(k)
+        print(v)
+    print("specification:", json.dumps(case.get("spec")))
+    print("real:", verdict(o))
     return 0
